@@ -53,8 +53,11 @@ def run(ctx):
         rule=("non-trivial: a chosencases filter is set or a bound (limit>0 or passes>0) exists, every content cell; "
               "distinct = distinct case lines"),
         key_fn=key_fn, what_fn=what_fn,
-        bridge_files=["Properties/C14_content.v", "Properties/C14_mw.v"],
+        translators=[("gofn-fullscan", "GoFnFullScanGen.v")],  # provider.go runFullScan re-read as traced IMP syntax (design/GOFN.md)
+        # Gen/GoFnFullScan_bridge.v: runFullScan = the HStream decisions of Model/Provider.v, call by call (proofs Proofs/FullScanProofs.v)
+        bridge_files=["Properties/C14_content.v", "Properties/C14_mw.v", "Gen/GoFnFullScan_bridge.v"],
         trusted=[
+            "translator harness/cmd/translate gofn-fullscan (runFullScan as traced IMP syntax: collaborator calls answered per call by an oracle, errors.Is = equality of error codes, select as an oracle call) + IMP semantics of Lib/Imp.v",
             "extraction: ExtrOcamlBasic only; OCaml driver ocaml/C14/main.ml + ocaml/common/conv.ml",
             "correspondence harness harness/cmd/hC14 + harness/internal/a08 (both real providers, preload off and on, built by "
             "components/providers/http.NewProvider from the same afero mem file; one consumer reading every request body; bounded waits of 2 s; "
